@@ -175,7 +175,7 @@ var properties = map[string]*Property{
 		},
 		NotCovered: []string{
 			"transparency: that a program gives the same results under the debugger (the single-step executor loop of reExecWithFlags against the normal one): a relation between two executions",
-			"that the command table binds s, n, f, c to these four functions, and that DebugOpStep / DebugOpContinue still hold {MaxInt, nil} / {0, nil} (package variables: initial values are not modelled)",
+			"that the command table binds s, n, f, c to these four functions (a package-level map: only flat package variables get their initial values, see DESIGN.md 0.2)",
 			"explicit breakpoints (Comp.breakpoint), Interp.debug, the debugger's own REPL",
 		},
 	},
